@@ -34,14 +34,14 @@ impl From<TransportError> for OpenError { #[verifier::external_body] fn from(e: 
 #[verifier::external_body]
 pub fn eof_error() -> (r: OpenError) { unimplemented!() }
 
-pub struct SaslTransport { pub sent: Ghost<Seq<sasl::Frame>> }
+pub struct SaslTransport { pub sent: Ghost<Seq<sasl::Frame>>, pub client_sasl_ok: Ghost<bool> }
 //@@ trusted tokio_util's FramedWrite / FramedRead halves are stand-ins (R9): a half remembers the SASL exchange it came out of (`history`) and, on the read side, the octets already READ from the socket but not yet decoded (`unread`: whatever the peer pipelined behind its last SASL frame -- its AMQP protocol header, its Open) next to what was received there (`received`). map_encoder / map_decoder swap the codec and keep the buffers (tokio_util: "maps the codec while preserving the read buffer"); into_inner hands out the bare I/O half WITHOUT the buffer; FramedRead::new / FramedWrite::new start with an empty buffer
 pub struct LengthDelimited {}
 pub struct ProtocolHeaderCodec {}
 impl ProtocolHeaderCodec { pub fn new() -> (r: Self) { ProtocolHeaderCodec {} } }
 pub struct IoHalf { pub history: Ghost<Seq<sasl::Frame>>, pub received: Ghost<Seq<u8>> }
 pub struct FramedW { pub history: Ghost<Seq<sasl::Frame>> }
-pub struct FramedR { pub history: Ghost<Seq<sasl::Frame>>, pub received: Ghost<Seq<u8>>, pub unread: Ghost<Seq<u8>> }
+pub struct FramedR { pub history: Ghost<Seq<sasl::Frame>>, pub received: Ghost<Seq<u8>>, pub unread: Ghost<Seq<u8>>, pub client_sasl_ok: Ghost<bool> }
 pub struct FramedWrite {}
 pub struct FramedRead {}
 impl FramedWrite { #[verifier::external_body] pub fn new(io: IoHalf, c: ProtocolHeaderCodec) -> (r: FramedW) ensures r.history == io.history { unimplemented!() } }
@@ -57,7 +57,7 @@ impl FramedW {
 }
 impl FramedR {
     #[verifier::external_body]
-    pub fn map_decoder<F: FnOnce(LengthDelimited) -> ProtocolHeaderCodec>(self, f: F) -> (r: FramedR) ensures r.history == self.history, r.received == self.received, r.unread == self.unread { unimplemented!() }
+    pub fn map_decoder<F: FnOnce(LengthDelimited) -> ProtocolHeaderCodec>(self, f: F) -> (r: FramedR) ensures r.history == self.history, r.received == self.received, r.unread == self.unread, r.client_sasl_ok == self.client_sasl_ok { unimplemented!() }
     #[verifier::external_body]
     pub fn into_inner(self) -> (r: IoHalf) ensures r.history == self.history, r.received == self.received { unimplemented!() }
 }
@@ -75,7 +75,7 @@ impl SaslTransport {
         ensures final(self).sent == old(self).sent,
     { unimplemented!() }
     #[verifier::external_body]
-    pub fn into_framed_codec(self) -> (r: (FramedW, FramedR)) ensures r.0.history@ == self.sent@, r.1.history@ == self.sent@, r.1.unread == r.1.received { unimplemented!() }
+    pub fn into_framed_codec(self) -> (r: (FramedW, FramedR)) ensures r.0.history@ == self.sent@, r.1.history@ == self.sent@, r.1.unread == r.1.received, r.1.client_sasl_ok == self.client_sasl_ok { unimplemented!() }
 }
 pub struct ListenerConnectionHandle { pub sasl_history: Ghost<Seq<sasl::Frame>> }
 pub struct SaslS { pub g: Ghost<int> }
@@ -125,6 +125,49 @@ impl ConnectionAcceptor {
             transport.sent@[0] is Mechanisms,
             transport.sent@.last() is Outcome && transport.sent@.last()->Outcome_0.code is Ok,
             forall|i: int| 0 <= i < transport.sent@.len() - 1 ==> !((#[trigger] transport.sent@[i]) is Outcome),
+//@@ end
+}
+
+// ---------------------------------------------------------------------------------------------------------------
+// the CLIENT's way through the SASL layer (connection/builder.rs): no AMQP exchange unless the SASL negotiation succeeded; pipelined octets kept
+//@@ trusted Builder::negotiate_sasl (the client loop, under contract in unit SASLMECH: Ok only after an outcome with code OK, for SCRAM only after the server signature was verified) is a stand-in that marks the transport `client_sasl_ok` exactly when it returns Ok; connect_amqp_with_framed / connect_amqp_with_stream (unit BUILDER) are stand-ins; tokio::io::split yields the two bare halves of the stream
+pub struct StreamS { pub g: Ghost<int> }
+pub struct SpawnFn {}
+pub struct ConnectionHandleC {}
+pub struct ProfileS {}
+pub mod tokio { pub mod io {
+    use super::super::*;
+    #[verifier::external_body]
+    pub fn split(stream: StreamS) -> (r: (IoHalf, IoHalf)) { unimplemented!() }
+} }
+pub struct ClientBuilder { pub sasl_profile: Option<ProfileS> }
+impl ClientBuilder {
+    #[verifier::external_body]
+    pub fn negotiate_sasl(&mut self, transport: &mut SaslTransport, profile: ProfileS) -> (r: Result<(), OpenError>)
+        ensures final(transport).client_sasl_ok@ == (r is Ok),
+    { unimplemented!() }
+    #[verifier::external_body]
+    pub fn connect_amqp_with_framed(self, framed_write: FramedW, framed_read: FramedR, spawn_engine_fn: SpawnFn) -> (r: Result<ConnectionHandleC, OpenError>)
+        requires
+            framed_read.client_sasl_ok@,                   // [C19.client.no-amqp-exchange-unless-sasl-succeeded] a client configured with a SASL profile goes on to the AMQP header exchange only after its negotiation returned Ok (outcome OK; for SCRAM the server's signature verified): a failed, refused or aborted negotiation ends the connection attempt
+            framed_read.unread@ == framed_read.received@,  // [C06.client.pipelined-octets-survive-the-sasl-layer] octets the server sent right behind its sasl-outcome (its AMQP header) and that were read together with it are still in the read buffer
+    { unimplemented!() }
+    #[verifier::external_body]
+    pub fn connect_amqp_with_stream(self, stream: StreamS, spawn_engine_fn: SpawnFn) -> (r: Result<ConnectionHandleC, OpenError>) { unimplemented!() }
+
+//@@ fn file=fe2o3-amqp/src/connection/builder.rs impl=`impl<Tls> Builder<'_, mode::ConnectorWithId, Tls>` name=connect_with_stream
+//@@ generics
+//@@ nowhere
+//@@ ret Result<ConnectionHandleC, OpenError>
+//@@ subst `(mut self,` => `(mut this: ClientBuilder,` rule=R2
+//@@ subst `self.` => `this.` rule=R2
+//@@ param stream : StreamS
+//@@ param spawn_engine_fn : SpawnFn
+//@@ subst `Transport::negotiate_sasl_header(framed_write, framed_read)` => `SaslTransport::negotiate_sasl_header(framed_write, framed_read)` rule=R9
+//@@ subst `|_v0|` => `|_v0: LengthDelimited|` rule=optional-R5
+//@@ subst `|_v1|` => `|_v1: LengthDelimited|` rule=optional-R5
+//@@ spec
+    ensures true,
 //@@ end
 }
 
